@@ -412,7 +412,12 @@ def op_compile(req):
         co = compile(src, fn, "exec", 0, True, **kw) if not PY2 else compile(src, fn, "exec", 0, True)
     except (SyntaxError, ValueError, OverflowError, RecursionError if not PY2 else RuntimeError, MemoryError) as e:
         return {"reject": "%s: %s" % (type(e).__name__, e)}
-    payload = marshal.dumps(co)
+    if req.get("inline"):
+        # what `marshal.dumps(compile(...))` writes: the module code object is a temporary (reference count 1), so from
+        # 3.4 on it does NOT take reference slot 0 - the first flagged object inside it does
+        payload = marshal.dumps(compile(src, fn, "exec", 0, True, **kw) if not PY2 else compile(src, fn, "exec", 0, True))
+    else:
+        payload = marshal.dumps(co)
     r = ref_tree_dump(co, req.get("dis", True), req.get("max_code"))
     r["payload"] = hx(payload)
     r["header"] = hx(own_header())
